@@ -21,6 +21,10 @@ def _reshape_split(t: T):
     dims = list(m[1])
     if len(dims) == 1 and strip_wrappers(dims[0]).op in ("tuple", "list"):   # reshape((a, b, ..)) == reshape(a, b, ..)
         dims = list(strip_wrappers(dims[0]).args)
+    elif len(dims) == 1 and strip_wrappers(dims[0]).op == "attr" and strip_wrappers(dims[0]).args[1] == "shape":
+        # reshape(Y.shape): the leading extent is Y.shape[0], the rest is Y's own trailing shape
+        sh = strip_wrappers(dims[0])
+        dims = [getitem(sh, const(0)), mk("star", getitem(sh, mk("slice", const(1), const(None), const(None))))]
     return m[0], dims
 
 
@@ -139,6 +143,10 @@ def check_batched(ctx, fi: FuncInfo, cls: str, rule: str = "NI-1") -> int:
             continue
         n_v += 1
         axes = list(in_axes.args) if in_axes is not None and in_axes.op in ("tuple", "list") else None
+        if in_axes is None:
+            axes = [const(0)] * len(vargs)               # vmap's default: every argument is mapped along its axis 0
+        elif in_axes.op == "const" and (in_axes.args[0] is None or type(in_axes.args[0]) is int):
+            axes = [in_axes] * len(vargs)                # one specification for all arguments
         if axes is None or len(axes) != len(vargs):
             ob(f"vmap #{n_v} in_axes has one entry per argument", False,
                f"in_axes = {show(in_axes) if in_axes is not None else 'default'} for {len(vargs)} arguments")
